@@ -1,9 +1,265 @@
+// corr: the correspondence check.  Runs the real STFS code (in process, from /repo's working
+// tree) and the compiled Lean model on the same generated histories and compares their
+// canonical observations after every call; property oracles run on the same histories.
 package main
 
 import (
+	"encoding/json"
+	"flag"
 	"fmt"
+	"os"
+	"path/filepath"
+	"sort"
+	"strings"
+	"sync"
 
-	_ "github.com/pojntfx/stfs/pkg/fs"
+	"verifharness/internal/h"
 )
 
-func main() { fmt.Println("ok") }
+type result struct {
+	Stream       string         `json:"stream"`
+	Seed         int64          `json:"seed"`
+	Histories    int            `json:"histories"`
+	Calls        int            `json:"calls"`
+	Nontrivial   int            `json:"distinct_nontrivial"`
+	Methods      map[string]int `json:"methods"`
+	Results      map[string]int `json:"result_classes"`
+	Triggers     map[string]int `json:"triggers"`
+	Branches     map[string]int `json:"branches"`
+	Mismatches   []h.Mismatch   `json:"mismatches"`
+	OracleFails  []OracleFail   `json:"oracle_failures"`
+	KnownHits    map[string]int `json:"known_finding_hits"`
+	Samples      [][]string     `json:"samples"`
+	Wedged       int            `json:"wedged_histories"`
+	OracleChecks map[string]int `json:"oracle_checks"`
+}
+
+// OracleFail is a property violation observed on the real code.
+type OracleFail struct {
+	Property string   `json:"property"`
+	Hist     string   `json:"hist"`
+	Step     int      `json:"step"`
+	What     string   `json:"what"`
+	Triggers []string `json:"triggers"`
+	Known    string   `json:"known,omitempty"`
+	Calls    []string `json:"calls"`
+}
+
+func main() {
+	if len(os.Args) < 2 {
+		fmt.Fprintln(os.Stderr, "usage: corr <stream> [flags]")
+		os.Exit(2)
+	}
+	stream := os.Args[1]
+	fl := flag.NewFlagSet(stream, flag.ExitOnError)
+	seed := fl.Int64("seed", 1, "PRNG seed")
+	n := fl.Int("n", 100, "number of histories")
+	length := fl.Int("len", 14, "calls per history")
+	workers := fl.Int("workers", 8, "parallel workers")
+	driver := fl.String("driver", "/verif/lean/.lake/build/bin/driver", "compiled Lean driver")
+	out := fl.String("out", "", "write the JSON result here")
+	wild := fl.Bool("wild", false, "let the generator enter the regions of known findings")
+	oracles := fl.String("oracles", "", "comma separated property oracles to run (C01,C02,...)")
+	rss := fl.String("rs", "20,1,3", "record sizes to cycle through")
+	replay := fl.String("replay", "", "replay a history file instead of generating")
+	work := fl.String("work", "", "scratch directory (default: a fresh temp dir, removed afterwards)")
+	fl.Parse(os.Args[2:])
+
+	scratch := *work
+	if scratch == "" {
+		d, err := os.MkdirTemp("", "verif-corr-")
+		if err != nil {
+			panic(err)
+		}
+		scratch = d
+		defer os.RemoveAll(d)
+	}
+	var res *result
+	switch stream {
+	case "fs":
+		res = runFS(fsOpts{seed: *seed, n: *n, length: *length, workers: *workers, driver: *driver, wild: *wild,
+			oracles: splitList(*oracles), rs: ints(*rss), scratch: scratch, replay: *replay})
+	default:
+		fmt.Fprintln(os.Stderr, "unknown stream", stream)
+		os.Exit(2)
+	}
+	res.Stream = stream
+	res.Seed = *seed
+	js, _ := json.MarshalIndent(res, "", " ")
+	if *out != "" {
+		os.MkdirAll(filepath.Dir(*out), 0o755)
+		os.WriteFile(*out, js, 0o644)
+	} else {
+		fmt.Println(string(js))
+	}
+	if len(res.Mismatches) > 0 {
+		os.Exit(3)
+	}
+	for _, f := range res.OracleFails {
+		if f.Known == "" {
+			os.Exit(4)
+		}
+	}
+}
+
+func splitList(s string) []string {
+	if s == "" {
+		return nil
+	}
+	return strings.Split(s, ",")
+}
+
+func ints(s string) []int {
+	out := []int{}
+	for _, p := range strings.Split(s, ",") {
+		var v int
+		fmt.Sscan(p, &v)
+		if v > 0 {
+			out = append(out, v)
+		}
+	}
+	return out
+}
+
+type fsOpts struct {
+	seed    int64
+	n       int
+	length  int
+	workers int
+	driver  string
+	wild    bool
+	oracles []string
+	rs      []int
+	scratch string
+	replay  string
+}
+
+func has(xs []string, x string) bool {
+	for _, y := range xs {
+		if y == x {
+			return true
+		}
+	}
+	return false
+}
+
+func runFS(o fsOpts) *result {
+	res := &result{Methods: map[string]int{}, Results: map[string]int{}, Triggers: map[string]int{}, Branches: map[string]int{},
+		KnownHits: map[string]int{}, OracleChecks: map[string]int{}}
+	var mu sync.Mutex
+	var wg sync.WaitGroup
+	jobs := make(chan int)
+	seen := map[string]bool{}
+	for w := 0; w < o.workers; w++ {
+		wg.Add(1)
+		go func(w int) {
+			defer wg.Done()
+			var batch []*h.History
+			flush := func() {
+				if len(batch) == 0 {
+					return
+				}
+				ms, err := h.RunDriver(o.driver, batch)
+				mu.Lock()
+				defer mu.Unlock()
+				if err != nil {
+					res.Mismatches = append(res.Mismatches, h.Mismatch{Kind: "driver-error", Impl: []string{err.Error()}})
+					batch = nil
+					return
+				}
+				for _, hist := range batch {
+					m := ms[hist.ID]
+					if mm := h.CompareCorr(hist, m); mm != nil {
+						res.Mismatches = append(res.Mismatches, *mm)
+					}
+					judgeOracles(o, hist, m, res)
+					res.Histories++
+					res.Calls += len(hist.Steps)
+					if hist.Wedged {
+						res.Wedged++
+					}
+					key := []string{}
+					nonCreate := false
+					for i, st := range hist.Steps {
+						res.Methods[st.Call.Method]++
+						res.Results[st.Call.Method+":"+st.Res]++
+						key = append(key, st.Call.Line()+"="+st.Res)
+						if i < len(m) {
+							for _, t := range m[i].Trig {
+								res.Triggers[t]++
+							}
+							for _, b := range m[i].Br {
+								res.Branches[b]++
+							}
+						}
+						for _, l := range st.Obs {
+							if strings.HasPrefix(l, "rec\t") && (strings.Contains(l, h.EncName("UPDATE")) || strings.Contains(l, h.EncName("DELETE"))) {
+								nonCreate = true
+							}
+						}
+					}
+					k := strings.Join(key, "|")
+					live := 0
+					if len(hist.Steps) > 0 {
+						for _, l := range hist.Steps[len(hist.Steps)-1].Obs {
+							if strings.HasPrefix(l, "row\t") && strings.Split(l, "\t")[9] == "0" {
+								live++
+							}
+						}
+					}
+					if !seen[k] && live >= 2 && nonCreate {
+						seen[k] = true
+						res.Nontrivial++
+					}
+					if len(res.Samples) < 3 {
+						s := []string{}
+						for _, st := range hist.Steps {
+							s = append(s, strings.ReplaceAll(st.Call.Line(), "\t", " ")+" -> "+st.Res)
+						}
+						res.Samples = append(res.Samples, s)
+					}
+				}
+				batch = nil
+			}
+			for j := range jobs {
+				id := fmt.Sprintf("%d-%d", o.seed, j)
+				dir := filepath.Join(o.scratch, id)
+				os.MkdirAll(dir, 0o755)
+				c := h.DefaultCfg()
+				c.RS = o.rs[j%len(o.rs)]
+				g := h.NewGen(o.seed*1_000_003+int64(j), h.Profile{Wild: o.wild, Symlinks: o.wild, MaxContent: 1500})
+				i := 0
+				next := func() (h.Call, bool) {
+					i++
+					if i == 1 {
+						return h.Call{Method: "initialize", Args: []string{h.EncName("/"), "511"}}, true
+					}
+					if i > o.length {
+						return h.Call{}, false
+					}
+					return g.Next(), true
+				}
+				hist, err := h.RunHistory(dir, c, id, next, len(o.oracles) > 0, oracleHook(o, dir))
+				os.RemoveAll(dir)
+				if err != nil {
+					mu.Lock()
+					res.Mismatches = append(res.Mismatches, h.Mismatch{Hist: id, Kind: "harness-error", Impl: []string{err.Error()}})
+					mu.Unlock()
+					continue
+				}
+				batch = append(batch, hist)
+				if len(batch) >= 16 {
+					flush()
+				}
+			}
+			flush()
+		}(w)
+	}
+	for j := 0; j < o.n; j++ {
+		jobs <- j
+	}
+	close(jobs)
+	wg.Wait()
+	sort.Slice(res.Mismatches, func(a, b int) bool { return res.Mismatches[a].Hist < res.Mismatches[b].Hist })
+	return res
+}
